@@ -18,8 +18,19 @@ Quantifier (property text): handler x message index of the exchange x fault kind
    tamper     - one required field has its bytes changed (still well-formed)
    disconnect - the device closes the connection instead of replying (clean EOF and reset)
    refused    - the connection cannot be opened at all
-plus the fault-free run, API misuse (finish() without pin / without begin()) and cancellation of
-begin()/finish() while it waits for each reply.
+plus the fault-free run, API misuse (finish() without pin / without begin()), cancellation of
+begin()/finish() while it waits for each reply AND after k turns of the event loop for every k until
+the call completes; each with credentials stored before (service and settings, different values) and
+as first-time pairing (nothing stored).  DMAP: handle_request with fake requests for PINs
+0, 1, 7, 1234, 9999, None x {correct code, other PINs' codes, other guid, garbage, missing}.
+
+All key material (os.urandom, srptools' SystemRandom) is drawn from a PRNG seeded by spec['rseed']
+(default 1), so every run - and every replay - is exactly reproducible.  The runs are independent
+functions of their spec and are spread over worker processes.
+
+coq/C08/DynModel.v is the decision table "first reply that is not honest => which call ends, how,
+nothing stored; none => everything stored" (theorems for EVERY fault pattern in DynProperties.v);
+each run that the oracle does not already report is compared with it inside Coq (check_case).
 
 What the code promises for the exception class (pyatv/support/__init__.py error_handler):
    OSError / asyncio.TimeoutError       -> exceptions.ConnectionFailedError
